@@ -20,6 +20,7 @@ import (
 //                        and handleConnectRequest: how many statements in the branch leave it
 //                        (return, break, continue, goto, panic). The model's "Warning + continue".
 //   closeDecisionInputs  the disjuncts of the condition that guards `res.Close = true`.
+//   defaultTransportFields  the fields of the http.Transport composite literal in NewProxy, name = value.
 //   deadlineRearmedBeforeEveryHandle  handleLoop sets the connection deadline unconditionally on
 //                        every iteration before it calls handle (model: Wire.serveTimed).
 func init() { extractors = append(extractors, extractProxySem) }
@@ -161,6 +162,26 @@ func extractProxySem() {
 		}
 	}
 	g.def("deadlineRearmedBeforeEveryHandle", "Bool", rearm)
+
+	// the fields NewProxy sets on its default http.Transport, with their values as written, sorted by
+	// name: every limit, timeout or switch of the transport the relay runs on is a decision about C01/C03
+	var fields []string
+	if fd := funcDecl(f, "", "NewProxy"); fd != nil && fd.Body != nil {
+		ast.Inspect(fd.Body, func(n ast.Node) bool {
+			cl, ok := n.(*ast.CompositeLit)
+			if !ok || oneLine(src(cl.Type)) != "http.Transport" {
+				return true
+			}
+			for _, el := range cl.Elts {
+				if kvx, ok := el.(*ast.KeyValueExpr); ok {
+					fields = append(fields, oneLine(src(kvx.Key))+" = "+oneLine(src(kvx.Value)))
+				}
+			}
+			return false
+		})
+	}
+	sort.Strings(fields)
+	g.def("defaultTransportFields", "List String", leanList(fields))
 }
 
 func disjuncts(e ast.Expr) []string {
